@@ -26,3 +26,54 @@ Theorem C09_dashes_of_a_path_are_the_dashes_of_its_subpaths : forall arr ops1 p 
   Ok (mk_path (p_ops r1 ++ p_ops r2) NonZero).
 Proof. exact dash_path_concat. Qed.
 Print Assumptions C09_dashes_of_a_path_are_the_dashes_of_its_subpaths.
+
+(* ---- structure of the dasher (DashShape.v) ---- *)
+Require Import RQ.DashShape.
+
+(* in every state the dasher can reach - during the offset loop, at the start of a subpath, after any number of cuts -
+   the pattern is 'on' exactly when the index is even: entries 0,2,4.. are dashes, 1,3,5.. gaps *)
+Theorem C09_on_iff_even_index_partial : forall arr off st,
+  dash_reachable arr off st -> ds_on st = Z.even (ds_idx st) /\ 0 <= ds_idx st.
+Proof. exact dash_state_parity. Qed.
+Print Assumptions C09_on_iff_even_index_partial.
+
+(* a pattern that is 'on' over a whole open subpath returns the subpath (its vertex list, vertices possibly repeated in
+   place: the first dash is buffered and flushed behind the MoveTo) *)
+Theorem C09_whole_open_subpath_on_partial : forall arr off initial p0 pts w,
+  fgt (dash_total arr) f0 = true -> dash_initial arr off = Some initial -> ds_on initial = true ->
+  never_chops (ds_rem initial) p0 pts = true ->
+  dash_path arr (mk_path (MoveTo p0 :: map LineTo pts) w) off = Ok (mk_path (open_on_result p0 pts) NonZero) /\
+  stutter (p0 :: pts) (DashShape.op_points (open_on_result p0 pts)).
+Proof. exact dash_whole_subpath_on_open. Qed.
+Print Assumptions C09_whole_open_subpath_on_partial.
+
+(* ... and over a whole closed subpath gives the complete closed outline, ending with Close *)
+Theorem C09_whole_closed_subpath_on_gives_closed_outline_partial : forall arr off initial p0 pts w,
+  fgt (dash_total arr) f0 = true -> dash_initial arr off = Some initial -> ds_on initial = true ->
+  never_chops (ds_rem initial) p0 (pts ++ [p0]) = true ->
+  dash_path arr (mk_path (MoveTo p0 :: map LineTo pts ++ [Close]) w) off = Ok (mk_path (closed_on_result p0 pts) NonZero) /\
+  stutter (p0 :: pts) (DashShape.op_points (closed_on_result p0 pts)) /\
+  last (closed_on_result p0 pts) (MoveTo p0) = Close.
+Proof. exact dash_whole_subpath_on_closed. Qed.
+Print Assumptions C09_whole_closed_subpath_on_gives_closed_outline_partial.
+
+(* the output holds only MoveTo / LineTo / Close, and never more Close ops than the input (a Close is emitted only for a
+   closed subpath that is 'on' all the way round: dash_close_only_whole_on, dashed_sub_close) *)
+Theorem C09_output_ops_partial : forall arr p off r,
+  dash_path arr p off = Ok r -> Forall mlc (p_ops r) /\ (closes (p_ops r) <= closes (p_ops p))%nat.
+Proof. exact dash_output_ops. Qed.
+Print Assumptions C09_output_ops_partial.
+(* further lemmas of the same file: dash_close_only_whole_on, dashed_sub_close *)
+(* a subpath lying wholly in a gap contributes no line at all *)
+Theorem C09_whole_subpath_off_partial : forall arr off initial p0 pts w (closed : bool),
+  fgt (dash_total arr) f0 = true -> dash_initial arr off = Some initial -> ds_on initial = false ->
+  never_chops (ds_rem initial) p0 (if closed then pts ++ [p0] else pts) = true ->
+  dash_path arr (mk_path (MoveTo p0 :: map LineTo pts ++ (if closed then [Close] else [])) w) off =
+    Ok (mk_path (MoveTo p0 :: map MoveTo pts) NonZero) /\
+  forall q, ~ In (LineTo q) (MoveTo p0 :: map MoveTo pts).
+Proof. exact dash_whole_subpath_off. Qed.
+Print Assumptions C09_whole_subpath_off_partial.
+
+(* the cuts of one segment: k cuts at the points q(j+1) = q(j) + lv * r(j), r(0) what is left of the current entry and
+   r(j) the following entries of the array, all on the segment's ray; on/off alternates with every cut *)
+(* further lemmas of the same file: dash_points_on_segments, chop_emit_by_index *)
